@@ -156,6 +156,18 @@ func genC02Pair(t *rapid.T, col *collector, k1 bool) (c02Case, bool) {
 			}
 		} else if rapid.IntRange(0, 6).Draw(t, "utf8pair") == 0 {
 			va, vb = genUTF8Pair(t)
+		} else if rapid.IntRange(0, 24).Draw(t, "bigpair") == 0 {
+			// a big text (64 KiB and more, on and off block boundaries) and the same text with ONE byte altered
+			size := rapid.SampledFrom([]int{65536, 65537, 70001, 98304, 100003, 131072}).Draw(t, "bigsize")
+			var sb strings.Builder
+			for i := 0; sb.Len() < size; i++ {
+				fmt.Fprintf(&sb, "row %06d,%s\n", i, strings.Repeat("x", i%37))
+			}
+			va = sb.String()[:size]
+			pos := rapid.SampledFrom([]int{0, size / 2, size - 1, size - 2, size - 100, 32768, 65535}).Draw(t, "bigpos")
+			alt := []byte(va)
+			alt[pos] ^= 0x01
+			vb = string(alt)
 		} else {
 			va = genText(t, o)
 			if rapid.IntRange(0, 9).Draw(t, "independent") == 0 {
